@@ -75,7 +75,17 @@ func Run(g *walk.Graph, mk func() Impl, nPaths, maxLen, k int, seed int64, outPa
 			continue
 		}
 		for _, e := range es {
-			if e.OK && !seenTo[e.To] && batchLen(g.States[e.To]) >= 2 && absx.Canon(g.States[e.To]["batch"]) != absx.Canon(g.States[e.From]["batch"]) {
+			execsLen := func(st absx.M) int {
+				if p, ok := st["params"].(absx.M); ok {
+					if l, ok := p["execs"].([]any); ok {
+						return len(l)
+					}
+				}
+				return 0
+			}
+			multiBatch := batchLen(g.States[e.To]) >= 2 && absx.Canon(g.States[e.To]["batch"]) != absx.Canon(g.States[e.From]["batch"])
+			multiExecs := execsLen(g.States[e.To]) >= 2 && absx.Canon(g.States[e.To]["params"]) != absx.Canon(g.States[e.From]["params"])
+			if e.OK && !seenTo[e.To] && (multiBatch || multiExecs) {
 				seenTo[e.To] = true
 				targets = append(targets, e)
 			}
